@@ -482,6 +482,13 @@ func (fc *FuncCtx) execReturn(st *State, x *ast.ReturnStmt) {
 	}
 	fc.returns = append(fc.returns, st)
 	fc.retVals = append(fc.retVals, vals)
+	if len(fc.inlineStack) > 0 {
+		// a function executed in place: its results travel in the state, the caller goes on
+		for i, rv := range fc.resultVars {
+			st.vars[rv] = Term{S: vals[i].S, T: rv.Type(), Const: vals[i].Const}
+		}
+		return
+	}
 	fc.checkPost(st, vals, x)
 }
 
